@@ -63,9 +63,17 @@ MPS_DEFS = {
     "c05mpo": [("bbb", 8.008, AVT), ("tears", 16.016, AV), ("bbb", 31.3, AV)],
     "c05mpv": [("bbb", 10.000499, AV), ("tears", 9.9995, AV)],
     "c05mpz": [("synntsc", 3.003, AV), ("syn2seg", 1.5, AV), ("synts7", 4, AV)],
+    # Periods that start at NON-ZERO positions inside their streams: on, just before and just after the
+    # segment boundaries of the timing reference (bbb video: 4 s), where the audio (about 3.99 / 4.02 s)
+    # and text (10 s) grids differ from it; irregular synthetic grids; a layout stream
+    "c05mo1": [("bbb", 12, AVT), ("tears", 8, AV), ("bbb", 8, AVT)],
+    "c05mo2": [("bbb", 8, AVT), ("bbb", 8, AVT), ("bbb", 8, AVT), ("bbb", 8, AVT), ("bbb", 8, AV)],
+    "c05mo3": [("syn1", 6, AV), ("syn2", 4, AV), ("lymix", 12, AVT), ("synodd", 10, AV)],
 }
 # start offset (seconds) of each Period inside its stream, where it is not 0
-MPS_OFFSETS = {"c05mph": [4, 12.012], "c05mpo": [4.004, 8, 8]}
+MPS_OFFSETS = {"c05mph": [4, 12.012], "c05mpo": [4.004, 8, 8], "c05mo1": [8, 4, 16],
+               "c05mo2": [3.9, 4.1, 7.999, 8.001, 12], "c05mo3": [4, 2, 20, 30.017]}
+OFFSET_MPS = ["c05mo1", "c05mo2", "c05mo3", "c05mph", "c05mpo"]
 FRACTIONAL_MPS = ["c05mpf", "c05mpu", "c05mph", "c05mpo", "c05mpv", "c05mpz"]
 ENC_STREAMS = {"bbb", "lyenc"}
 # Streams with varied *track layouts*, built from re-labelled fixture files (the stored
@@ -114,10 +122,10 @@ def get_app():
     return app
 
 
-SYNTHETIC = ["syn2seg", "synntsc", "synts7", "synodd", "synshort", "synlong", "synlong2"]
+SYNTHETIC = ["syn2seg", "synntsc", "synts7", "synodd", "c5short", "c5long", "c5long2"]
 SYNTHETIC_OUTSIDE = ["synzero"]
 # (stream, mode) pairs that are only reached through ledger witnesses
-OUTLASTING = ["synlong", "synlong2"]
+OUTLASTING = ["c5long", "c5long2"]
 
 
 def excluded(stream: str, mode: str) -> bool:
@@ -150,23 +158,23 @@ def _add_synthetic(app):
         "synodd_a2": mk("audio", 44100, [1323000, 1024, 88200, 100000], samples_per_segment=[1292, 1, 86, 98], seed=39, track_id=3)},
         timing_from="synodd_v1")
     # tracks much shorter than the timing reference (by more than a segment) and a little shorter
-    mp4synth.register(app, "synshort", "Audio much shorter than the reference", {
-        "synshort_v1": mk("video", 1000, [4000] * 10, samples_per_segment=4, seed=44, track_id=1),
-        "synshort_a1": mk("audio", 44100, [176400] * 6, samples_per_segment=172, seed=45, track_id=2),
-        "synshort_a2": mk("audio", 44100, [176400] * 9 + [170000], samples_per_segment=[172] * 9 + [166], seed=46, track_id=3)},
-        timing_from="synshort_v1")
+    mp4synth.register(app, "c5short", "Audio much shorter than the reference", {
+        "c5short_v1": mk("video", 1000, [4000] * 10, samples_per_segment=4, seed=44, track_id=1),
+        "c5short_a1": mk("audio", 44100, [176400] * 6, samples_per_segment=172, seed=45, track_id=2),
+        "c5short_a2": mk("audio", 44100, [176400] * 9 + [170000], samples_per_segment=[172] * 9 + [166], seed=46, track_id=3)},
+        timing_from="c5short_v1")
     # a track that outlasts the timing reference by more than its last segment (video 10 x 4 s, audio
     # 12 x 4 s, and one whose last segment is short).  vod / odvod manifests of it are part of the
     # generators; LIVE manifests of it are ledger C05/D26 (negative S@d) and only its witness.
-    mp4synth.register(app, "synlong2", "Audio 12 x 4 s on a 10 x 4 s reference", {
-        "synlong2_v1": mk("video", 1000, [4000] * 10, samples_per_segment=4, seed=47, track_id=1),
-        "synlong2_a1": mk("audio", 44100, [176400] * 12, samples_per_segment=172, seed=48, track_id=2),
-        "synlong2_a2": mk("audio", 44100, [176400] * 10 + [88200, 1024], samples_per_segment=[172] * 10 + [86, 1], seed=49, track_id=3)},
-        timing_from="synlong2_v1")
-    mp4synth.register(app, "synlong", "Audio outlasts the reference", {
-        "synlong_v1": mk("video", 1000, [30000, 4000], samples_per_segment=[30, 4], seed=40, track_id=1),
-        "synlong_a1": mk("audio", 44100, [1323000, 264600, 441000], samples_per_segment=[1292, 258, 431], seed=41, track_id=2)},
-        timing_from="synlong_v1")
+    mp4synth.register(app, "c5long2", "Audio 12 x 4 s on a 10 x 4 s reference", {
+        "c5long2_v1": mk("video", 1000, [4000] * 10, samples_per_segment=4, seed=47, track_id=1),
+        "c5long2_a1": mk("audio", 44100, [176400] * 12, samples_per_segment=172, seed=48, track_id=2),
+        "c5long2_a2": mk("audio", 44100, [176400] * 10 + [88200, 1024], samples_per_segment=[172] * 10 + [86, 1], seed=49, track_id=3)},
+        timing_from="c5long2_v1")
+    mp4synth.register(app, "c5long", "Audio outlasts the reference", {
+        "c5long_v1": mk("video", 1000, [30000, 4000], samples_per_segment=[30, 4], seed=40, track_id=1),
+        "c5long_a1": mk("audio", 44100, [1323000, 264600, 441000], samples_per_segment=[1292, 258, 431], seed=41, track_id=2)},
+        timing_from="c5long_v1")
     # outside the generators in every mode (ledger C05/D27): fragments numbered from 0
     mp4synth.register(app, "synzero", "Fragments numbered from 0", {
         "synzero_v1": mk("video", 1000, [4000, 4000, 4000], samples_per_segment=4, seed=42, track_id=1, start_number=0),
@@ -424,7 +432,7 @@ def gen_case(rng, hostile: bool = True, force: dict | None = None) -> dict:
     if "stream" in force:
         stream = force["stream"]
     if kind != "multi" and excluded(stream, mode):
-        stream = "synshort"
+        stream = "c5short"
     query = gen_options(rng, mft, mode, stream, kind)
     now = datetime.datetime(2024, 1, 2, tzinfo=datetime.timezone.utc) + datetime.timedelta(
         seconds=rng.randrange(0, 700 * 86400), microseconds=rng.choice([0, 0, 500000, rng.randrange(1000000)]))
